@@ -52,8 +52,16 @@ def main():
         paths = []
         for k in range(nch + 1):
             L = rnd.randint(9, 11)
+            gaps = []
             if k < nch:
-                s, base = c09.pattern_chain("c18-%d" % k, seed * 10 + k, [True] * L, 4)
+                pat = [True] * L
+                if k == 1:
+                    # unrated heights: a reader that sees such a height as the tip asks for the averages of the last RATED height
+                    gaps = sorted(rnd.sample(range(3, L - 3), 2))
+                    for gI in gaps:
+                        pat[gI] = False
+                s, base = c09.pattern_chain("c18-%d" % k, seed * 10 + k, pat, 4)
+                gaps = [base + gI for gI in gaps]
             else:
                 # an asset whose average is unavailable for a while (zero-rated three heights in a row) with conversions into and out of it
                 s = c13.live(seed + 31, 0, tier)
@@ -64,6 +72,8 @@ def main():
             sp = os.path.join(work, "s%d.json" % k)
             json.dump(doc, open(sp, "w"))
             heights = rnd.sample(range(base + 3, doc["tip"] - 3), 2 if tier == "quick" else 4)
+            if gaps:
+                heights = gaps[:2] if tier == "quick" else gaps + heights[:2]
             for c in heights:
                 out = os.path.join(work, "gates-%d-%d.ndjson" % (k, c))
                 rc, o = vlib.run([vh, "api", "-scenario", sp, "-out", out, "-work", os.path.join(work, "w%d_%d" % (k, c)), "-mode", "gates", "-at", str(c)],
